@@ -173,6 +173,36 @@ def handleSchema (j : Json) : D Json := do
     pure (Json.mkObj [("ok", jJ s'), ("jsonOnly", jsonOnly s')])
   | .error e => pure (Json.mkObj [("raised", exnJ e)])
 
+def handleDerive (j : Json) : D Json := do
+  let ann ← getAnn (← fld j "ann")
+  let mode ← match ← str j "resolver" with
+    | "signature" => pure ResolveMode.signature
+    | _ => pure ResolveMode.dflt
+  let start ← match fldOpt j "start" with
+    | some s => s.getNat?
+    | none => pure 5000
+  let (v, next) := (derive mode ann).run start
+  let mut fields : List (String × Json) := [("v", vJ v), ("next", next)]
+  match fldOpt j "x" with
+  | none => pure (Json.mkObj fields)
+  | some xj =>
+    let x ← getVal xj
+    let o ← getOracle j
+    let envL ← match fldOpt j "env" with
+      | some a => do (← a.getArr?).toList.mapM getV
+      | none => pure []
+    let env : Nat → V := fun i => envL.getD i (.always 0)
+    let runs : List Json := [Mode.sync, Mode.async].map (fun m =>
+      match run o env m 400 v x with
+      | none => Json.mkObj [("error", "fuel")]
+      | some (out, t) =>
+        let ht : Json := match out with
+          | .valid w => Json.bool (hasType ann w)
+          | _ => Json.null
+        Json.mkObj [("out", outJ out), ("trace", Json.arr (t.map evJ).toArray), ("payloadHasType", ht)])
+    fields := fields ++ [("sync", runs[0]!), ("async", runs[1]!), ("inputHasType", Json.bool (hasType ann x))]
+    pure (Json.mkObj fields)
+
 def handle (line : String) : Json :=
   match Json.parse line with
   | .error e => Json.mkObj [("error", "bad-json"), ("detail", e)]
@@ -184,6 +214,7 @@ def handle (line : String) : Json :=
       | "pred" => handlePred j
       | "render" => handleRender j
       | "schema" => handleSchema j
+      | "derive" => handleDerive j
       | "proc" => handleProc j
       | "ping" => pure (Json.mkObj [("pong", true)])
       | op => throw s!"bad-op {op}"
